@@ -45,6 +45,9 @@ def step (s : Nat) (j : Json) : Except String (Nat × Json × List Fired) := do
           fired := fired ++ [{ name := "inactive_validator_rewarded", detail := mkObj [("val", jn v), ("amount", ji (iouts.getD v 0))] }]
       if iouts.any (· < 0) || icf < 0 || itr < 0 then
         fired := fired ++ [{ name := "negative_amount", detail := out }]
+      -- every oracle-active validator of the last block's set gets its power-proportional part (whatever its vote flag)
+      if iouts ≠ outs then
+        fired := fired ++ [{ name := "oracle_reward_not_split_by_power_over_active_validators", detail := mkObj [("got", jl (iouts.map ji)), ("specified", jl (outs.map ji))] }]
       if pct ≤ 100 ∧ itr ≠ pool * pct / 100 ∧ !active.isEmpty ∧ (active.map (·.2.1)).foldl (· + ·) 0 ≠ 0 then
         fired := fired ++ [{ name := "oracle_share_not_pct_of_pool", detail := out }]
     else if pct ≤ 100 then
